@@ -10,6 +10,11 @@ identity / error identity), the subscription intervals of every cold source read
 `ColdObservable.subscriptions` (per source, in order), the total number of subscriptions, the
 arguments of user-callback calls, and - with the probe wrapper - that a source is opened only
 after the previous one delivered its terminal.
+
+Second replay configuration (run_sync / judge_sync): the same scenarios WITHOUT virtual time - hand-driven
+and library sources that deliver their offset-0 events inside subscribe(), the result subscribed with
+scheduler=ImmediateScheduler() (the hand-over to the next source runs inline, re-entrantly) or with the
+default trampoline - judged against the same exported expectations minus the instants.
 """
 from __future__ import annotations
 
@@ -133,7 +138,97 @@ class Built:
     pass
 
 
-def build(scn: Dict[str, Any], s, cod: SeqCodec, form: str, probe: bool) -> Built:
+def _sync_sources(b, srcs, cod: "SeqCodec", lib: bool):
+    """Untimed, hand-driven cold sources (no scheduler of their own): every event whose offset from the
+    subscription is 0 is delivered INSIDE subscribe(), the later ones one at a time by `drive`.  With lib=True a
+    timeline that lies entirely at offset 0 is the library's own synchronous source (from_iterable / throw / never)
+    behind a logging wrapper.  Every subscription is logged in b.events / b.subrecs."""
+    import reactivex
+    from reactivex import Observable
+    from reactivex.disposable import CompositeDisposable, Disposable
+    out = {}
+
+    def events_of(j, tl):
+        evs, t = [], 0
+        for q in range(1, tl["n"] + 1):
+            t += tl["g"][q - 1]
+            evs.append((t, "N", cod.val(j, q)))
+        if tl["t"] != "U":
+            t += tl["g"][tl["n"]]
+            evs.append((t, tl["t"], cod.err(j) if tl["t"] == "E" else None))
+        return evs
+
+    def pump(rec, only_sync):
+        evs = rec["evs"]
+        while rec["pos"] < len(evs) and not rec["disposed"] and not rec["done"]:
+            t, k, v = evs[rec["pos"]]
+            if only_sync and t > 0:
+                return
+            rec["pos"] += 1
+            if k == "N":
+                rec["obs"].on_next(v)
+            else:
+                rec["done"] = True
+                b.events.append(("term", rec["j"]))
+                rec["obs"].on_completed() if k == "C" else rec["obs"].on_error(v)
+            if not only_sync:
+                return
+    b.pump = pump
+
+    def manual(j, evs):
+        def subscribe(observer, scheduler=None):
+            rec = {"j": j, "pos": 0, "obs": observer, "disposed": False, "done": False, "evs": evs}
+            b.subrecs.append(rec)
+            b.events.append(("open", j))
+
+            def dispose():
+                if not rec["disposed"]:
+                    rec["disposed"] = True
+                    b.events.append(("close", j))
+            pump(rec, True)
+            return Disposable(dispose)
+        return Observable(subscribe)
+
+    def library(j, tl, evs):
+        if tl["t"] == "C":
+            inner = reactivex.from_iterable([v for _, k, v in evs if k == "N"])
+        elif tl["t"] == "E":
+            inner = reactivex.throw(cod.err(j))
+        else:
+            inner = reactivex.never()
+
+        def subscribe(observer, scheduler=None):
+            rec = {"j": j, "pos": len(evs), "obs": observer, "disposed": False, "done": False, "evs": evs}
+            b.subrecs.append(rec)
+            b.events.append(("open", j))
+
+            def dispose():
+                if not rec["disposed"]:
+                    rec["disposed"] = True
+                    b.events.append(("close", j))
+
+            def on_error(e):
+                rec["done"] = True
+                b.events.append(("term", j))
+                observer.on_error(e)
+
+            def on_completed():
+                rec["done"] = True
+                b.events.append(("term", j))
+                observer.on_completed()
+            d = inner.subscribe(observer.on_next, on_error, on_completed, scheduler=scheduler)
+            return CompositeDisposable(d, Disposable(dispose))
+        return Observable(subscribe)
+
+    for j, tl in enumerate(srcs, start=1):
+        evs = events_of(j, tl)
+        all_sync = all(t == 0 for t, _, _ in evs)
+        lib_ok = lib and all_sync and (tl["t"] == "C" or tl["n"] == 0)
+        out[j] = library(j, tl, evs) if lib_ok else manual(j, evs)
+    return out
+
+
+def build(scn: Dict[str, Any], s, cod: SeqCodec, form: str, probe: bool, sync: Optional[str] = None, lib: bool = False) -> Built:
     import reactivex
     from reactivex import Observable
     from reactivex import operators as ops
@@ -146,7 +241,8 @@ def build(scn: Dict[str, Any], s, cod: SeqCodec, form: str, probe: bool) -> Buil
     b.base = 0         # len(calls) when the latest subscription started
     b.call_pos = None  # positions of the model's callback calls this form actually makes (None = all)
     b.colds = {}
-    for j, tl in enumerate(srcs, start=1):
+    b.subrecs = []     # sync mode: one record per source subscription
+    for j, tl in enumerate(srcs if sync is None else [], start=1):
         msgs, t = [], 0
         for q in range(1, tl["n"] + 1):
             t += tl["g"][q - 1]
@@ -174,7 +270,10 @@ def build(scn: Dict[str, Any], s, cod: SeqCodec, form: str, probe: bool) -> Buil
             return CompositeDisposable(d, Disposable(lambda: b.events.append(("close", j))))
         return Observable(subscribe)
 
-    S = {j: (probed(j) if probe else b.colds[j]) for j in b.colds}
+    if sync is None:
+        S = {j: (probed(j) if probe else b.colds[j]) for j in b.colds}
+    else:
+        S = _sync_sources(b, srcs, cod, lib)
     b.S = S
 
     def call(arg_tok: int):
@@ -408,6 +507,106 @@ def judge(scn, allowed, *, form, probe, profile="plain", salt=0):
             "has_fault": scn["flt"] > 0, "disposed": scn["dsp"] != NEVER, "n_sources": len(scn["srcs"])}
 
 
+# ---- untimed replay: synchronous sources, inline / trampoline scheduling ----------------------------------
+SYNC_KINDS = ("immediate", "default")
+
+
+def sync_applies(scn) -> bool:
+    """take() and unbounded counts are left out: what a synchronous source still does after the downstream
+    terminated early is C14's subject, not C10's; dispose instants and faults need virtual time / are C09."""
+    return scn["cut"] == 0 and scn["dsp"] == NEVER and not scn["flt"]
+
+
+def run_sync(scn: Dict[str, Any], *, form: str, sync: str, lib: bool, profile: str = "plain", salt: int = 0) -> Dict[str, Any]:
+    """The same scenario without virtual time: events at offset 0 happen inside subscribe(), the result is
+    subscribed with scheduler=ImmediateScheduler() (scheduled work runs INLINE, re-entrantly) or with no
+    scheduler (current-thread trampoline: queued), later events are then delivered by hand one at a time."""
+    from reactivex.scheduler import ImmediateScheduler
+    cod = SeqCodec(profile, salt)
+    b = build(scn, None, cod, form, False, sync=sync, lib=lib)
+    rec: List[Tuple[int, str, Any]] = []
+    escaped = None
+    try:
+        with watchdog():
+            kw = {"scheduler": ImmediateScheduler()} if sync == "immediate" else {}
+            b.ys.subscribe(on_next=lambda v: rec.append((0, "N", v)), on_error=lambda e: rec.append((0, "E", e)),
+                           on_completed=lambda: rec.append((0, "C", None)), **kw)
+            for _ in range(10000):
+                live = [r for r in b.subrecs if not r["disposed"] and not r["done"] and r["pos"] < len(r["evs"])]
+                if not live:
+                    break
+                b.pump(live[-1], False)
+    except Hang:
+        escaped = "hang"
+    except RecursionError as e:
+        escaped = e
+    except Exception as e:
+        escaped = e
+    return {"rec": rec, "events": list(b.events), "calls": list(b.calls), "call_pos": b.call_pos, "cod": cod, "escaped": escaped,
+            "subrecs": [{"j": r["j"], "disposed": r["disposed"], "done": r["done"]} for r in b.subrecs]}
+
+
+def compare_sync(scn, exp, got) -> Optional[str]:
+    """asserted projection without instants: notifications in order, sources opened in the model's order and
+    only after the previous one delivered its terminal, every terminated source released, a source the
+    model leaves open still subscribed, callback arguments"""
+    if got["escaped"] is not None:
+        return "hang:run did not return" if got["escaped"] == "hang" else f"escaped:{type(got['escaped']).__name__}"
+    cod, rec, out = got["cod"], got["rec"], exp["out"]
+    if len(rec) != len(out):
+        return f"count:{len(rec)}!={len(out)}"
+    for (_, k, v), e in zip(rec, out):
+        if k != e["k"]:
+            return f"kind:{k}!={e['k']}"
+        if k == "N":
+            want = cod.val(e["v"][0], e["v"][1])
+            if not (v is want or strict_eq(v, want)):
+                return f"value:{v!r}!={want!r}"
+        if k == "E":
+            if e["e"] == FN:
+                if not isinstance(v, FnErr):
+                    return f"error:{type(v).__name__}"
+            elif v is not cod.errs.get(e["e"]):
+                return f"error:{v!r} is not the error of source {e['e']}"
+    ev = got["events"]
+    opens = [i for i, e in enumerate(ev) if e[0] == "open"]
+    if [ev[i][1] for i in opens] != [x["s"] for x in exp["subs"]]:
+        return f"order:sources opened in order {[ev[i][1] for i in opens]} expected {[x['s'] for x in exp['subs']]}"
+    for a, bb in zip(opens, opens[1:]):
+        if ("term", ev[a][1]) not in ev[a:bb]:
+            return f"overlap:source {ev[bb][1]} opened before source {ev[a][1]} terminated"
+    for x, r in zip(exp["subs"], got["subrecs"]):
+        if x["c"] == NEVER and r["disposed"]:
+            return f"released:subscription to source {r['j']} was disposed although it is the one in progress"
+        if x["c"] != NEVER and not r["disposed"]:
+            return f"leak:subscription to source {r['j']} still open after it terminated"
+    want_calls = exp["calls"] if got.get("call_pos") is None else \
+        [c for i, c in enumerate(exp["calls"], start=1) if i in got["call_pos"]]
+    if got["calls"] != want_calls:
+        return f"calls:{got['calls']}!={want_calls}"
+    return None
+
+
+def judge_sync(scn, allowed, *, form, sync, lib, profile="plain", salt=0):
+    try:
+        got = _confirmed(lambda: run_sync(scn, form=form, sync=sync, lib=lib, profile=profile, salt=salt))
+    except Exception as e:
+        got = {"rec": [], "events": [], "calls": [], "call_pos": None, "cod": SeqCodec(profile, salt), "escaped": e, "subrecs": []}
+    reasons = []
+    for exp in allowed:
+        r = compare_sync(scn, exp, got)
+        if r is None:
+            return None
+        reasons.append(r)
+    esc = got["escaped"]
+    return {"engine": "seq-sync", "op": scn["op"], "form": form, "sync": sync, "lib": lib, "profile": profile, "salt": salt,
+            "scn": scn, "expected": allowed,
+            "observed": {"rec": [(k, repr(v)) for _, k, v in got["rec"]], "events": got["events"], "calls": got["calls"],
+                         "subrecs": got["subrecs"], "escaped": (esc if isinstance(esc, str) else repr(esc)) if esc is not None else None},
+            "reason": reasons[0], "reason_kind": reasons[0].split(":")[0], "has_fault": False, "disposed": False,
+            "n_sources": len(scn["srcs"])}
+
+
 # ---- C04 dimension: the same observable object subscribed again ----------------------------------------
 RESUB_PATTERNS = ("seq2", "seq3", "overlap2", "overlap3")
 
@@ -525,7 +724,7 @@ def _seq_job(args):
     scn, allowed, variants = args
     fails = []
     for v in variants:
-        f = judge(scn, allowed, **v)
+        f = judge_sync(scn, allowed, **v) if "sync" in v else judge(scn, allowed, **v)
         if f:
             fails.append(f)
     return len(variants), fails
@@ -545,6 +744,14 @@ def seq_variants(scn, rich: bool):
         out.append(dict(form=form, probe=probe, profile=profile, salt=h % 7))
         if rich:
             out.append(dict(form=form, probe=not probe, profile=("plain", "falsy", "ints")[(h + i + 1) % 3], salt=(h + 3) % 7))
+    if sync_applies(scn):
+        # untimed replay with synchronous sources: inline (ImmediateScheduler) and queued (default trampoline)
+        # hand-over, hand-made and library sources; one call form each (all forms when rich)
+        allf = forms_for(scn)
+        for i, kind in enumerate(SYNC_KINDS):
+            for form in (allf if rich and kind == "immediate" else [allf[(h + i) % len(allf)]]):
+                out.append(dict(form=form, sync=kind, lib=bool((h + i) % 2), profile=("plain", "falsy", "ints")[(h + i) % 3],
+                                salt=h % 7))
     return out
 
 
@@ -566,7 +773,10 @@ def seq_nontrivial(scn, allowed):
 
 
 def seq_generic_replay(rec):
-    if rec.get("engine") == "seq-resub":
+    if rec.get("engine") == "seq-sync":
+        f = judge_sync(rec["scn"], rec["expected"], form=rec["form"], sync=rec["sync"], lib=rec["lib"], profile=rec["profile"],
+                       salt=rec["salt"])
+    elif rec.get("engine") == "seq-resub":
         f = judge_resub(rec["scn"], rec["expected"], rec["pattern"], form=rec["form"])
     else:
         f = judge(rec["scn"], rec["expected"], form=rec["form"], probe=rec["probe"], profile=rec["profile"], salt=rec["salt"])
